@@ -521,4 +521,410 @@ theorem loadFile_concat {bodyOk : Nat → Bytes → Bool} (s : Stored) (ss : Lis
   simp only [s.chunk_valid, Bool.not_true, Bool.false_eq_true, if_false]
   rw [loadChunks_concat_fileFuel ss (fun t ht => h t (List.mem_cons_of_mem _ ht))]
   rfl
+/-! ### Single-position changes -/
+
+/-- `b` has the length of `a` and differs from it in position `i` and nowhere else -/
+def DiffersAt (a b : Bytes) (i : Nat) : Prop :=
+  b.length = a.length ∧ i < a.length ∧ b[i]? ≠ a[i]? ∧ ∀ j, j ≠ i → b[j]? = a[j]?
+
+namespace DiffersAt
+variable {a b : Bytes} {i : Nat}
+
+theorem take_eq (h : DiffersAt a b i) {n : Nat} (hn : n ≤ i) : b.take n = a.take n := by
+  apply List.ext_getElem?
+  intro j
+  simp only [List.getElem?_take]
+  split
+  · exact h.2.2.2 j (by omega)
+  · rfl
+
+theorem drop_eq (h : DiffersAt a b i) {n : Nat} (hn : i < n) : b.drop n = a.drop n := by
+  apply List.ext_getElem?
+  intro j
+  simp only [List.getElem?_drop]
+  exact h.2.2.2 _ (by omega)
+
+theorem take_ne (h : DiffersAt a b i) {n : Nat} (hn : i < n) : b.take n ≠ a.take n := by
+  intro e
+  apply h.2.2.1
+  have := congrArg (·[i]?) e
+  simpa [List.getElem?_take, hn] using this
+
+theorem ne (h : DiffersAt a b i) : b ≠ a := fun e => h.2.2.1 (by rw [e])
+
+theorem drop (h : DiffersAt a b i) {n : Nat} (hn : n ≤ i) :
+    DiffersAt (a.drop n) (b.drop n) (i - n) := by
+  obtain ⟨h1, h2, h3, h4⟩ := h
+  refine ⟨by simp [h1], by simp; omega, ?_, ?_⟩
+  · simp only [List.getElem?_drop]
+    rwa [show n + (i - n) = i by omega]
+  · intro j hj
+    simp only [List.getElem?_drop]
+    exact h4 _ (by omega)
+
+end DiffersAt
+
+/-- flip bit `bit` of byte `i` -/
+def flipBit (bs : Bytes) (i bit : Nat) : Bytes :=
+  bs.modify i (fun b => b ^^^ ((1 : UInt8) <<< UInt8.ofNat bit))
+
+theorem xor_bit_ne (b : UInt8) (bit : Nat) (hb : bit < 8) :
+    b ^^^ ((1 : UInt8) <<< UInt8.ofNat bit) ≠ b := by
+  have key : ∀ j : Fin 8, (1 : UInt8) <<< UInt8.ofNat j.val ≠ 0 := by decide
+  intro e
+  apply key ⟨bit, hb⟩
+  have : b ^^^ ((1 : UInt8) <<< UInt8.ofNat bit) = b ^^^ 0 := by rw [e, UInt8.xor_zero]
+  exact (UInt8.xor_right_inj b).1 this
+
+/-- a bit flip is a single-position change -/
+theorem flipBit_differsAt (bs : Bytes) (i bit : Nat) (hi : i < bs.length) (hb : bit < 8) :
+    DiffersAt bs (flipBit bs i bit) i := by
+  refine ⟨List.length_modify _ _ _, hi, ?_, ?_⟩
+  · rw [flipBit, List.getElem?_modify, List.getElem?_eq_getElem hi]
+    simp only [Option.map_eq_map, Option.map_some, if_true, ne_eq, Option.some.injEq]
+    exact xor_bit_ne _ _ hb
+  · intro j hj
+    rw [flipBit, List.getElem?_modify]
+    simp only [if_neg (Ne.symm hj)]
+    cases bs[j]? <;> rfl
+
+
+/-! ### A changed chunk -/
+
+theorem encodeChunkWith_eq (cks : Bytes) (ty : Nat) (data : Bytes) :
+    encodeChunkWith cks ty data = (Consts.MAGIC_BYTES ++ cks) ++ hashedBytes ty data := by
+  simp [encodeChunkWith, hashedBytes]
+
+theorem magic_cks_length {cks : Bytes} (hc : cks.length = 4) : (Consts.MAGIC_BYTES ++ cks).length = 8 := by
+  simp [Consts.MAGIC_BYTES, hc]
+
+theorem parseHeader_bad_magic (input : Bytes) (hl : 4 ≤ input.length)
+    (hm : input.take 4 ≠ Consts.MAGIC_BYTES) : parseHeader input = .error .invalid := by
+  unfold parseHeader takeN
+  rw [if_neg (by omega)]
+  simp only [ne_eq, hm, not_false_eq_true, if_true]
+
+/-- a change inside the magic bytes: `Chunk::parse` fails with "invalid magic bytes" -/
+theorem change_in_magic {bodyOk : Nat → Bytes → Bool} {cks : Bytes} {ty : Nat} {data tail inp' : Bytes}
+    {i : Nat} (hdf : DiffersAt (encodeChunkWith cks ty data ++ tail) inp' i) (hi : i < 4) :
+    parseChunk bodyOk inp' = .error .invalid := by
+  apply parseChunk_of_parseHeader_error
+  have e : (encodeChunkWith cks ty data ++ tail).take 4 = Consts.MAGIC_BYTES := by
+    simp only [encodeChunkWith, List.append_assoc]
+    exact List.take_left' rfl
+  apply parseHeader_bad_magic
+  · have h1 := hdf.1
+    have : 4 ≤ (encodeChunkWith cks ty data ++ tail).length := by
+      simp [encodeChunkWith, Consts.MAGIC_BYTES]
+    omega
+  · rw [← e]; exact hdf.take_ne hi
+
+/-- a change inside the checksum field leaves a chunk with the same type and data and another
+    checksum -/
+theorem change_in_checksum_shape {cks : Bytes} (hc : cks.length = 4) {ty : Nat} {data tail inp' : Bytes}
+    {i : Nat} (hdf : DiffersAt (encodeChunkWith cks ty data ++ tail) inp' i) (h4 : 4 ≤ i)
+    (h8 : i < 8) :
+    ∃ cks', cks' ≠ cks ∧ cks'.length = 4 ∧ inp' = encodeChunkWith cks' ty data ++ tail := by
+  have eo : encodeChunkWith cks ty data ++ tail =
+      Consts.MAGIC_BYTES ++ (cks ++ (hashedBytes ty data ++ tail)) := by
+    simp [encodeChunkWith, hashedBytes]
+  have hlen : 8 ≤ inp'.length := by
+    have h1 := hdf.1
+    rw [h1, eo]; simp [Consts.MAGIC_BYTES, hc]
+  have e4 : inp'.take 4 = Consts.MAGIC_BYTES := by
+    rw [hdf.take_eq h4, eo]; exact List.take_left' rfl
+  have e8 : inp'.drop 8 = hashedBytes ty data ++ tail := by
+    rw [hdf.drop_eq h8, eo, ← List.append_assoc]
+    exact List.drop_left' (magic_cks_length hc)
+  refine ⟨(inp'.take 8).drop 4, ?_, ?_, ?_⟩
+  · intro e
+    apply hdf.take_ne h8
+    rw [eo, ← List.append_assoc, List.take_left' (magic_cks_length hc), ← e, ← e4]
+    have : inp'.take 4 = (inp'.take 8).take 4 := by rw [List.take_take]; rfl
+    rw [this, List.take_append_drop]
+  · rw [List.length_drop, List.length_take]; omega
+  · have e : inp' = (inp'.take 8).take 4 ++ ((inp'.take 8).drop 4 ++ inp'.drop 8) := by
+      rw [← List.append_assoc, List.take_append_drop, List.take_append_drop]
+    rw [List.take_take, show min 4 8 = 4 from rfl, e4, e8] at e
+    exact e.trans (by simp [encodeChunkWith, hashedBytes])
+
+/-- a change inside the checksum field: the hash is computed over unchanged bytes, so the stored
+    checksum no longer matches — unconditionally -/
+theorem change_in_checksum {bodyOk : Nat → Bytes → Bool} {ty : Nat} {data tail inp' : Bytes} {i : Nat}
+    (hty : ty ≤ 3) (hty2 : ty ≠ 2) (hd : data.length < 2 ^ 64)
+    (hdf : DiffersAt (encodeChunk ty data ++ tail) inp' i) (h4 : 4 ≤ i) (h8 : i < 8) :
+    parseChunk bodyOk inp' = .error .invalid ∨
+    ∃ ch, parseChunk bodyOk inp' = .ok (ch, tail) ∧ ch.checksumValid = false := by
+  obtain ⟨cks', hne, hl, rfl⟩ := change_in_checksum_shape (checksum_length ty data) hdf h4 h8
+  rw [parseChunk_encodeWith_plain bodyOk cks' hl ty hty hty2 data tail hd]
+  by_cases hb : bodyOk ty data = true
+  · right
+    rw [if_pos hb]
+    refine ⟨_, rfl, ?_⟩
+    simp only [Chunk.checksumValid, beq_eq_false_iff_ne, ne_eq]
+    exact fun e => hne e.symm
+  · left; rw [if_neg hb]
+
+theorem getElem?_8 {cks : Bytes} (hc : cks.length = 4) (x : UInt8) (r : Bytes) :
+    ((Consts.MAGIC_BYTES ++ cks) ++ (x :: r))[8]? = some x := by
+  rw [List.getElem?_append_right (by rw [magic_cks_length hc]; omega), magic_cks_length hc]
+  rfl
+
+theorem encodeChunkWith_getElem?_8 {cks : Bytes} (hc : cks.length = 4) (ty : Nat) (data rest : Bytes) :
+    (encodeChunkWith cks ty data ++ rest)[8]? = some (UInt8.ofNat ty) := by
+  rw [encodeChunkWith_eq, hashedBytes, List.append_assoc, List.cons_append, getElem?_8 hc]
+
+theorem ofNat_inj_le3 {a b : Nat} (ha : a ≤ 3) (hb : b ≤ 3) (h : UInt8.ofNat a = UInt8.ofNat b) :
+    a = b := by
+  have := congrArg UInt8.toNat h
+  rwa [toNat_ofNat_lt (by omega), toNat_ofNat_lt (by omega)] at this
+
+/-- a change behind the checksum field: the accepted chunk carries the old checksum, and its
+    hash is computed over bytes other than the original ones — except possibly when a change
+    chunk is turned into a compressed one -/
+theorem change_in_body {bodyOk : Nat → Bytes → Bool} {cks : Bytes} (hc : cks.length = 4) {ty : Nat}
+    (hty : ty ≤ 3) {data tail inp' : Bytes} {i : Nat}
+    (hdf : DiffersAt (encodeChunkWith cks ty data ++ tail) inp' i) (h8 : 8 ≤ i)
+    (hi : i < (encodeChunkWith cks ty data).length) {ch : Chunk} {rest' : Bytes}
+    (hp : parseChunk bodyOk inp' = .ok (ch, rest')) :
+    ch.checksum = cks ∧ ∃ y, ch.hash = Sha256.sha256 y ∧
+      (y ≠ hashedBytes ty data ∨ (ty = 1 ∧ i = 8 ∧ ch.ty = 2)) := by
+  obtain ⟨einp, hc', hty', hdl, hcase⟩ := parseChunk_ok_inv hp
+  rw [encodeChunkWith_eq, List.append_assoc] at einp hdf
+  rw [encodeChunkWith_eq, List.length_append, magic_cks_length hc] at hi
+  -- the checksum field is unchanged
+  have hck : ch.checksum = cks := by
+    have := hdf.take_eq h8
+    rw [List.take_left' (magic_cks_length hc), einp, List.take_left' (magic_cks_length hc')] at this
+    exact List.append_cancel_left this
+  rw [hck] at einp
+  -- the bytes read as type, length and data are not the original ones
+  have key : hashedBytes ch.ty ch.data ≠ hashedBytes ty data := by
+    intro e
+    rw [e] at einp
+    have hl := hdf.1
+    rw [einp] at hl
+    simp only [List.length_append] at hl
+    have hd := hdf.drop_eq (n := 8 + (hashedBytes ty data).length) (by omega)
+    rw [← List.append_assoc,
+      List.drop_left' (by rw [List.length_append, magic_cks_length hc]), einp,
+      ← List.append_assoc, List.drop_left' (by rw [List.length_append, magic_cks_length hc])] at hd
+    apply hdf.ne
+    rw [einp, hd, List.append_assoc]
+  refine ⟨hck, ?_⟩
+  rcases hcase with ⟨h2, -, hh, -⟩ | ⟨h2, -, hh, -⟩
+  · exact ⟨_, hh, Or.inl key⟩
+  · refine ⟨hashedBytes 1 ch.body, hh, ?_⟩
+    by_cases hy : hashedBytes 1 ch.body = hashedBytes ty data
+    · right
+      have ht : ty = 1 := (ofNat_inj_le3 (by omega) hty (List.cons.inj hy).1).symm
+      refine ⟨ht, ?_, h2⟩
+      apply Classical.byContradiction
+      intro hne
+      have := hdf.2.2.2 8 (fun e => hne e.symm)
+      rw [einp] at this
+      simp only [hashedBytes, List.cons_append] at this
+      rw [getElem?_8 hc, getElem?_8 hc, h2, ht] at this
+      simp only [Option.some.injEq] at this
+      exact absurd (ofNat_inj_le3 (by omega) (by omega) this) (by omega)
+    · exact Or.inl hy
+
+
+/-- Acceptance of a chunk changed in one position.  `encodeChunk ty data ++ tail` is changed in
+    one position inside the chunk; if `Chunk::parse` still succeeds with a valid checksum, then
+    some byte string other than the originally hashed one has a SHA-256 digest with the same first
+    four bytes — or (not possible for a single-bit flip) the type byte of a change chunk was
+    changed to "compressed" and the data inflate to a change with the original hash. -/
+theorem change_accept {bodyOk : Nat → Bytes → Bool} {ty : Nat} {data tail inp' : Bytes} {i : Nat}
+    (hty : ty ≤ 3) (hty2 : ty ≠ 2) (hd : data.length < 2 ^ 64)
+    (hdf : DiffersAt (encodeChunk ty data ++ tail) inp' i) (hi : i < (encodeChunk ty data).length)
+    {ch : Chunk} {rest' : Bytes} (hp : parseChunk bodyOk inp' = .ok (ch, rest'))
+    (hv : ch.checksumValid = true) :
+    (∃ y, y ≠ hashedBytes ty data ∧
+      (Sha256.sha256 y).take 4 = (Sha256.sha256 (hashedBytes ty data)).take 4) ∨
+    (ty = 1 ∧ i = 8 ∧ ch.ty = 2 ∧ ch.hash = chunkHash 1 data) := by
+  by_cases h4 : i < 4
+  · rw [change_in_magic hdf h4] at hp; cases hp
+  by_cases h8 : i < 8
+  · rcases change_in_checksum (bodyOk := bodyOk) hty hty2 hd hdf (by omega) h8 with h | ⟨ch', h, hv'⟩
+    · rw [h] at hp; cases hp
+    · rw [h] at hp
+      simp only [Except.ok.injEq, Prod.mk.injEq] at hp
+      rw [hp.1, hv] at hv'; cases hv'
+  · obtain ⟨hck, y, hh, hy⟩ :=
+      change_in_body (checksum_length ty data) hty hdf (by omega) hi hp
+    have hv' : ch.hash.take 4 = ch.checksum := by simpa [Chunk.checksumValid] using hv
+    rw [hck, hh, chunkHash_eq] at hv'
+    rcases hy with hy | ⟨h1, h2, h3⟩
+    · exact Or.inl ⟨y, hy, hv'⟩
+    · by_cases hy : y = hashedBytes ty data
+      · right
+        refine ⟨h1, h2, h3, ?_⟩
+        rw [hh, hy, h1]; rfl
+      · exact Or.inl ⟨y, hy, hv'⟩
+
+/-- a single-bit flip cannot turn the type byte "change" into "compressed" -/
+theorem flipBit_not_quine {ty : Nat} {data tail : Bytes} {i bit : Nat}
+    (hb : bit < 8) (h1 : ty = 1) (h8 : i = 8) (ch : Chunk) (rest' : Bytes) (bodyOk : Nat → Bytes → Bool)
+    (hp : parseChunk bodyOk (flipBit (encodeChunk ty data ++ tail) i bit) = .ok (ch, rest'))
+    (h2 : ch.ty = 2) : False := by
+  obtain ⟨einp, hc', -, -, -⟩ := parseChunk_ok_inv hp
+  have e1 := congrArg (·[8]?) einp
+  subst h1 h8
+  rw [encodeChunkWith_getElem?_8 hc', h2, flipBit, List.getElem?_modify, encodeChunk,
+    encodeChunkWith_getElem?_8 (checksum_length _ _)] at e1
+  simp only [if_true, Option.map_eq_map, Option.map_some, Option.some.injEq] at e1
+  have key : ∀ j : Fin 8, UInt8.ofNat 1 ^^^ ((1 : UInt8) <<< UInt8.ofNat j.val) ≠ UInt8.ofNat 2 := by
+    decide
+  exact key ⟨bit, hb⟩ e1
+
+/-! ### Loads that succeed have parsed and checked their first chunk -/
+
+theorem loadFile_ok_first {bodyOk : Nat → Bytes → Bool} {mode : OnPartial} {inp : Bytes}
+    {chunks : List Chunk} (h : loadFile bodyOk mode inp = .ok chunks) (hne : inp.isEmpty = false) :
+    ∃ ch rest more, parseChunk bodyOk inp = .ok (ch, rest) ∧ ch.checksumValid = true ∧
+      chunks = ch :: more := by
+  unfold loadFile at h
+  rw [hne] at h
+  simp only [Bool.false_eq_true, if_false] at h
+  split at h
+  · cases h
+  · rename_i ch rest hp
+    cases hv : ch.checksumValid
+    · rw [hv] at h; simp at h
+    · rw [hv] at h
+      simp only [Bool.not_true, Bool.false_eq_true, if_false] at h
+      refine ⟨ch, rest, (loadChunks bodyOk (rest.length + 1) rest []).chunks, hp, hv, ?_⟩
+      split at h
+      · exact (Except.ok.inj h).symm
+      · cases mode
+        · cases h
+        · exact (Except.ok.inj h).symm
+
+theorem loadChunks_ok_first {bodyOk : Nat → Bytes → Bool} {fuel : Nat} {inp : Bytes} {acc : List Chunk}
+    (h : (loadChunks bodyOk (fuel + 1) inp acc).error = none) (hne : inp.isEmpty = false) :
+    ∃ ch rest, parseChunk bodyOk inp = .ok (ch, rest) ∧ ch.checksumValid = true := by
+  rw [loadChunks, hne] at h
+  simp only [Bool.false_eq_true, if_false] at h
+  split at h
+  · cases h
+  · rename_i ch rest hp
+    refine ⟨ch, rest, hp, ?_⟩
+    cases hv : ch.checksumValid
+    · rw [hv] at h; simp at h
+    · rfl
+
+
+/-- the loop only ever appends to its accumulator -/
+theorem loadChunks_acc_subset (bodyOk : Nat → Bytes → Bool) (fuel : Nat) (inp : Bytes)
+    (acc : List Chunk) (c : Chunk) (hc : c ∈ acc) : c ∈ (loadChunks bodyOk fuel inp acc).chunks := by
+  induction fuel generalizing inp acc with
+  | zero => simpa [loadChunks] using hc
+  | succ fuel ih =>
+    rw [loadChunks]
+    split
+    · exact hc
+    · split
+      · exact hc
+      · split
+        · exact hc
+        · exact ih _ _ (by simp [hc])
+
+/-! ### C14 at the level of `loadFile` -/
+
+theorem DiffersAt.isEmpty_false {a b : Bytes} {i : Nat} (h : DiffersAt a b i) : b.isEmpty = false :=
+  isEmpty_false_of_length_pos (by have := h.1; have := h.2.1; omega)
+
+/-- change in the magic bytes of the first chunk: rejected, whatever follows -/
+theorem loadFile_change_in_magic {bodyOk : Nat → Bytes → Bool} {mode : OnPartial} {ty : Nat}
+    {data tail file' : Bytes} {i : Nat}
+    (hdf : DiffersAt (encodeChunk ty data ++ tail) file' i) (hi : i < 4) :
+    loadFile bodyOk mode file' = .error (.parse .invalid) := by
+  rw [loadFile, hdf.isEmpty_false, change_in_magic hdf hi]
+  rfl
+
+/-- change in the checksum field of the first chunk: rejected, whatever follows -/
+theorem loadFile_change_in_checksum {bodyOk : Nat → Bytes → Bool} {mode : OnPartial} {ty : Nat}
+    {data tail file' : Bytes} {i : Nat} (hty : ty ≤ 3) (hty2 : ty ≠ 2) (hd : data.length < 2 ^ 64)
+    (hb : bodyOk ty data = true)
+    (hdf : DiffersAt (encodeChunk ty data ++ tail) file' i) (h4 : 4 ≤ i) (h8 : i < 8) :
+    loadFile bodyOk mode file' = .error .badChecksum := by
+  obtain ⟨cks', hne, hl, rfl⟩ := change_in_checksum_shape (checksum_length ty data) hdf h4 h8
+  rw [loadFile, hdf.isEmpty_false, parseChunk_encodeWith_plain bodyOk cks' hl ty hty hty2 data tail hd,
+    if_pos hb]
+  have : (Chunk.checksumValid ⟨ty, cks', data, data, chunkHash ty data⟩) = false := by
+    simp only [Chunk.checksumValid, beq_eq_false_iff_ne, ne_eq]
+    exact fun e => hne e.symm
+  simp [this]
+
+/-- change anywhere in the first chunk, either mode: a successful load exhibits a collision
+    (or the change-to-compressed case, which keeps the change hash) -/
+theorem loadFile_change_accept {bodyOk : Nat → Bytes → Bool} {mode : OnPartial} {ty : Nat}
+    {data tail file' : Bytes} {i : Nat} (hty : ty ≤ 3) (hty2 : ty ≠ 2) (hd : data.length < 2 ^ 64)
+    (hdf : DiffersAt (encodeChunk ty data ++ tail) file' i) (hi : i < (encodeChunk ty data).length)
+    {chunks : List Chunk} (h : loadFile bodyOk mode file' = .ok chunks) :
+    (∃ y, y ≠ hashedBytes ty data ∧
+      (Sha256.sha256 y).take 4 = (Sha256.sha256 (hashedBytes ty data)).take 4) ∨
+    (ty = 1 ∧ i = 8 ∧ ∃ ch more, chunks = ch :: more ∧ ch.ty = 2 ∧ ch.hash = chunkHash 1 data) := by
+  obtain ⟨ch, rest, more, hp, hv, rfl⟩ := loadFile_ok_first h hdf.isEmpty_false
+  rcases change_accept hty hty2 hd hdf hi hp hv with hc | ⟨h1, h2, h3, h4⟩
+  · exact Or.inl hc
+  · exact Or.inr ⟨h1, h2, ch, more, rfl, h3, h4⟩
+
+/-- change in a later chunk, strict load: the chunks before it are well-formed, so the loop
+    reaches the changed chunk and must accept it -/
+theorem loadFile_change_later_accept {bodyOk : Nat → Bytes → Bool} (pre : List Stored)
+    (hpre : ∀ s ∈ pre, s.WF bodyOk) {ty : Nat} {data tail file' : Bytes} {i : Nat}
+    (hty : ty ≤ 3) (hty2 : ty ≠ 2) (hd : data.length < 2 ^ 64)
+    (hdf : DiffersAt (fileOf pre ++ (encodeChunk ty data ++ tail)) file' i)
+    (hlo : (fileOf pre).length ≤ i) (hhi : i < (fileOf pre).length + (encodeChunk ty data).length)
+    {chunks : List Chunk} (h : loadFile bodyOk .error file' = .ok chunks) :
+    (∃ y, y ≠ hashedBytes ty data ∧
+      (Sha256.sha256 y).take 4 = (Sha256.sha256 (hashedBytes ty data)).take 4) ∨
+    (ty = 1 ∧ i = (fileOf pre).length + 8 ∧
+      ∃ ch, ch ∈ chunks ∧ ch.ty = 2 ∧ ch.hash = chunkHash 1 data) := by
+  -- split the changed file behind the unchanged chunks
+  have hd' := hdf.drop hlo
+  rw [List.drop_left] at hd'
+  have ef : file' = fileOf pre ++ file'.drop (fileOf pre).length := by
+    have := hdf.take_eq hlo
+    rw [List.take_left] at this
+    conv => rhs; lhs; rw [← this]
+    rw [List.take_append_drop]
+  generalize file'.drop (fileOf pre).length = inp' at hd' ef
+  subst ef
+  cases pre with
+  | nil =>
+    rw [fileOf_nil, List.nil_append] at h
+    rw [fileOf_nil, List.length_nil, Nat.sub_zero] at hd'
+    rcases loadFile_change_accept hty hty2 hd hd' (by simpa [fileOf] using hhi) h with hc | ⟨h1, h2, ch, more, rfl, h3, h4⟩
+    · exact Or.inl hc
+    · exact Or.inr ⟨h1, by simpa [fileOf] using h2, ch, List.mem_cons_self .., h3, h4⟩
+  | cons p ps =>
+    have hp := hpre p (List.mem_cons_self ..)
+    have hps : ∀ s ∈ ps, s.WF bodyOk := fun t ht => hpre t (List.mem_cons_of_mem _ ht)
+    have hpl := p.bytes_length_ge
+    rw [fileOf_cons, List.append_assoc, loadFile,
+      isEmpty_false_of_length_pos (by rw [List.length_append]; omega), Stored.parse hp] at h
+    simp only [p.chunk_valid, Bool.not_true, Bool.false_eq_true, if_false] at h
+    have hfuel : (fileOf ps ++ inp').length + 1 = (fileOf ps ++ inp').length - ps.length + 1 + ps.length := by
+      have := fileOf_length_ge ps
+      rw [List.length_append]; omega
+    rw [hfuel, loadChunks_append ps hps] at h
+    split at h
+    · rename_i herr
+      obtain ⟨ch, rest, hpc, hv⟩ := loadChunks_ok_first herr hd'.isEmpty_false
+      have hi' : i - (fileOf (p :: ps)).length < (encodeChunk ty data).length := by omega
+      rcases change_accept hty hty2 hd hd' hi' hpc hv with hc | ⟨h1, h2, h3, h4⟩
+      · exact Or.inl hc
+      · refine Or.inr ⟨h1, by omega, ch, ?_, h3, h4⟩
+        have hc := (Except.ok.inj h).symm
+        rw [hc]
+        apply List.mem_cons_of_mem
+        -- the changed chunk is the next one the loop appends
+        rw [loadChunks, hd'.isEmpty_false, hpc]
+        simp only [hv, Bool.not_true, Bool.false_eq_true, if_false]
+        exact loadChunks_acc_subset _ _ _ _ _ (by simp)
+    · cases h
+
 end AmVerif.Chunk
